@@ -1524,20 +1524,20 @@ class BuiltinMixin:
 
     def lemma_F3(self):
         """Lemma F3 (pyvc/fplemmas.py: f3_cells, proved per run by the check that uses it): for every instant T, a whole number
-        of milliseconds between 1970 and 2100,   fromtimestamp(((T.timestamp() * 1000000) / 1000000), utc) == T."""
+        of microseconds between 1970 and 2100 + 31 days,   fromtimestamp(((T.timestamp() * 1000000) / 1000000), utc) == T."""
         if "F3" in getattr(self, "_global_axioms", set()):
             return
         if not hasattr(self, "_global_axioms"):
             self._global_axioms = set()
         self._global_axioms.add("F3")
-        from .fplemmas import LIMIT_2100_US
+        from .fplemmas import LIMIT_F3_US
         T = z3.Int("T!f3")
         ts = z3.Function("dt_timestamp", I, R)
         back = z3.Function("dt_fromtimestamp", R, I)
         mul, div = z3.Function("f_mul", R, R, R), z3.Function("f_div", R, R, R)
         M = z3.RealVal(1000000)
         stored = mul(ts(T), M)
-        self.axioms.append(z3.ForAll([T], z3.Implies(z3.And(0 <= T, T <= LIMIT_2100_US, T % 1000 == 0), back(div(stored, M)) == T),
+        self.axioms.append(z3.ForAll([T], z3.Implies(z3.And(0 <= T, T <= LIMIT_F3_US), back(div(stored, M)) == T),
                                      patterns=[stored]))
         self.lemmas_used.add("F3")
 
